@@ -296,10 +296,11 @@ Section Body.
       destruct r as [|x r]; [discriminate|]. cbn [is_prefix] in Hp. apply andb_true_iff in Hp as [Hc Hp].
       apply N.eqb_eq in Hc. subst x. cbn [length skipn app]. f_equal. now apply IH. }
     set (n := skipn (length body_ref_prefix) r) in *.
-    rewrite E at 2. unfold get_reference_simple_name.
-    change body_ref_prefix with (removelast body_ref_prefix ++ [47]).
-    rewrite <- app_assoc. cbn [app]. rewrite after_last_app by exact Hs.
-    change (removelast body_ref_prefix ++ 47 :: n) with (body_ref_prefix ++ n). exact E.
+    assert (Ha : get_reference_simple_name r = n).
+    { rewrite E. unfold get_reference_simple_name.
+      assert (Hp' : body_ref_prefix = removelast body_ref_prefix ++ [47]) by reflexivity.
+      rewrite Hp', <- app_assoc. cbn [app]. now apply after_last_app. }
+    rewrite Ha. exact E.
   Qed.
 End Body.
 
